@@ -18,8 +18,10 @@ without upload compression.
 Oracle (weakest reading of the statement):
   U1  a *successful* unary / exchange response has min(len(wire body), len(decoded body)) <= W;
   U2  the bytes the store received during ONE response never exceed E — if they do and the response succeeded the
-      key is ``ext-cap-exceeded:<kind>``, if the response was turned into an error afterwards the key is
-      ``ext-overshoot-uploaded-before-refusal:<kind>`` ("an overshoot is refused before upload");
+      key is ``ext-cap-exceeded:<kind>:<degree>``, if the response was turned into an error afterwards the key is
+      ``ext-overshoot-uploaded-before-refusal:<kind>:<degree>`` ("an overshoot is refused before upload"); degree =
+      ``framing-gap`` when the logical buffer bytes of the uploaded batches fit the cap (only framing/log bytes push
+      the upload over it) else ``logical-overshoot``;
   U3  a failure must be an ``RpcError`` naming the cap that is configured (``max_response_bytes`` /
       ``max_externalized_response_bytes``);
   U4  no spurious refusal: when W >= F_ref and E >= raw_ref (or the caps are None) the call must succeed with the
@@ -44,7 +46,7 @@ from vf.core.runner import Ctx
 PROPERTY = "C16"
 LEVEL = "exploration"
 ENGINE = "E1-SEQ"
-SHARDS = {"quick": 4, "thorough": 16}
+SHARDS = {"quick": 8, "thorough": 16}
 RULE = (
     "kinds {unary blob, exchange (2 turns), producer (1-3 steps, finish separate/same tick)} x payload sizes {8,300,2000} "
     "(thorough +70000) x log batches {0,1,2} x externalisation {off, threshold 1, threshold = logical size, threshold = "
@@ -95,7 +97,7 @@ def make_world(ext: dict[str, Any] | None, W: Any, E: Any, codec: str = "identit
     from vgi_rpc.external import Compression, ExternalLocationConfig
 
     st = MemStorage()
-    skw: dict[str, Any] = {}
+    skw: dict[str, Any] = {"server_id": "srv000000000"}  # fixed 12-char id: log batches then compress identically
     if ext is not None:
         comp = Compression(ext["comp"], 3) if ext.get("comp") else None
         skw["external_location"] = ExternalLocationConfig(storage=st, externalize_threshold_bytes=ext["thr"], compression=comp)
@@ -126,7 +128,7 @@ def run_call(kind: str, prm: dict[str, Any], ext: Any, W: Any, E: Any, codec: st
     w, st = make_world(ext, W, E, codec)
     ev: list[Any] = []
     marks: list[int] = []  # tap-log index at which each exchange turn / the producer iteration starts
-    with bound_fetch(st), w.connect(external_location=ExternalLocationConfig()) as p:
+    with Z.pinned_entropy(), bound_fetch(st), w.connect(external_location=ExternalLocationConfig()) as p:
         try:
             if kind == "unary":
                 r = p.blob(n=prm["n"], nlogs=prm["nlogs"], noise=prm.get("noise", 0))
@@ -232,16 +234,34 @@ def judge(ctx: Ctx, case: dict[str, Any], ref: dict[str, Any], ref_inline: dict[
         if e[0] == "exc":
             ctx.fail(f"unexpected-exception:{kind}:{e[1]}", f"client raised {e[1]}: {e[2]} for {case}", case)
     # --- U2: storage bytes per response
+    lgs = logical_sizes(kind, prm)
+    step = 0  # producer: running step index over the turns
     for i, e in enumerate(ents):
         got = sum(e["uploads"])
-        if E is not None and got > E:
-            dec = Z.decode_body(e)
+        dec = Z.decode_body(e)
+        if kind == "producer":
+            t = Z.turn_cycles(dec)
+            ext_lg = 0
+            for is_ptr in t["ptr"]:
+                if is_ptr and step < len(lgs):
+                    ext_lg += lgs[step]
+                step += 1
+            failed = t["error"]
+            if failed and len(e["uploads"]) > sum(t["ptr"]):
+                ext_lg = -1  # an upload whose pointer never reached the wire: attribution unknown
+        else:
+            ext_lg = lgs[i] if (e["uploads"] and i < len(lgs)) else 0
             failed = e["headers"].get("x-vgi-rpc-error") == "true" or Z.turn_cycles(dec)["error"]
-            key = ("ext-overshoot-uploaded-before-refusal:" if failed else "ext-cap-exceeded:") + tag
+        if E is not None and got > E:
+            # "framing-gap": the logical (buffer) bytes of the uploaded batches fit the cap, only IPC framing / log
+            # batches push the upload over it; "logical-overshoot": even the logical bytes exceed the cap
+            degree = "framing-gap" if 0 <= ext_lg <= E else "logical-overshoot"
+            key = ("ext-overshoot-uploaded-before-refusal:" if failed else "ext-cap-exceeded:") + f"{kind}:{degree}"
             ctx.fail(
                 key,
                 f"storage received {e['uploads']} = {got} bytes during one {kind} response with {ECAP}={E} "
-                f"({'the response was then turned into an error' if failed else 'and the response succeeded'}); case {case}",
+                f"(logical bytes of the uploaded batches: {ext_lg}; "
+                f"{'the response was then turned into an error' if failed else 'and the response succeeded'}); case {case}",
                 case,
             )
             outcome.append("E-exceeded-" + ("err" if failed else "ok"))
@@ -345,8 +365,9 @@ def items(ctx: Ctx) -> list[dict[str, Any]]:
                         continue  # incompressible payloads only matter where something is compressed
                     for codec in codecs:
                         out.append({"kind": "unary", "prm": prm, "ext": ext, "codec": codec})
-    for n1, n2 in ((8, 300), (300, 8), (2000, 300), (300, 2000)) if ctx.quick else itertools.product(sizes, repeat=2):
-        for nlogs in (0, 1, 2):
+    xpairs = ((8, 300), (2000, 300)) if ctx.quick else tuple(itertools.product((8, 300, 2000), repeat=2)) + ((70000, 8),)
+    for n1, n2 in xpairs:
+        for nlogs in (0, 2) if ctx.quick else (0, 1, 2):
             prm = {"steps": [[n1, nlogs, 0], [n2, (nlogs + 1) % 3, 0]], "noise": 0}
             lgs = logical_sizes("exchange", prm)
             for ext in exts(lgs[0]):
@@ -354,16 +375,16 @@ def items(ctx: Ctx) -> list[dict[str, Any]]:
                     out.append({"kind": "exchange", "prm": prm, "ext": ext, "codec": codec})
     psizes = (8, 300, 2000)
     for ln in (1, 2, 3):
-        for combo in itertools.product(psizes, repeat=ln):
-            if ln == 3 and ctx.quick and len(set(combo)) == 1:
-                continue
+        combos = list(itertools.product(psizes, repeat=ln))
+        if ln == 3 and ctx.quick:
+            combos = [(300, 300, 300), (8, 2000, 300), (2000, 8, 2000)]
+        for combo in combos:
             for nlogs, fin in ((0, 0), (1, 1)) if (ln == 3 or ctx.quick) else ((0, 0), (1, 1), (2, 0), (0, 1)):
                 steps = [[s, nlogs, 0] for s in combo]
                 steps[-1][2] = fin
                 prm = {"steps": steps, "noise": 0}
-                lg300 = 16 + 300
-                pe: list[Any] = [None, {"thr": 1, "comp": None}, {"thr": lg300, "comp": None}]
-                if ctx.thorough or ln < 3:
+                pe: list[Any] = [None, {"thr": 1, "comp": None}, {"thr": 16 + 300, "comp": None}]
+                if ctx.thorough or ln == 2:
                     pe.append({"thr": 1, "comp": "zstd"})
                 for ext in pe:
                     out.append({"kind": "producer", "prm": prm, "ext": ext, "codec": "identity"})
@@ -371,53 +392,63 @@ def items(ctx: Ctx) -> list[dict[str, Any]]:
 
 
 def grid(ctx: Ctx, item: dict[str, Any], ref: dict[str, Any], ref_inline: dict[str, Any]) -> list[tuple[Any, Any]]:
+    """The cap pairs of one item.  unary: full product.  exchange / producer (quick): every W with E in {None} + the
+    raw-upload boundaries, and every E with W in {None, a generous W}; thorough: full product."""
     from vf.kit import c11_sized as Z
 
     kind, prm, ext = item["kind"], item["prm"], item["ext"]
     lgs = logical_sizes(kind, prm)
-    Ws: list[Any] = [None]
-    Es: list[Any] = [None]
     fvals = {p["F"] for p in ref["per"]} | {p["F"] for p in ref_inline["per"]}
+    w_core: list[Any] = [None]
+    w_more: list[Any] = []
     if kind == "producer":
-        # tell() values at the continue/stop decisions of a single big turn + 1 (one cycle per turn)
-        Ws += [1, BIG]
+        # tell() values at the continue/stop decisions of a single big turn
+        w_core += [1, BIG]
         big = run_call(kind, prm, ext, BIG, None, item["codec"])
-        vals = set()
+        vals: set[int] = set()
         for e in big["log"]:
             t = Z.turn_cycles(Z.decode_body(e))
             if t["data"]:
-                s0 = t["data"][0][0] - t["data_stream_start"]
-                acc = s0
+                acc = t["data"][0][0] - t["data_stream_start"]
                 for start, end, _k in t["data"]:
                     acc += end - start
                     vals.add(acc)
-        Ws += pm1(vals) if ctx.thorough else pm1(sorted(vals)[:2])
+        w_more = pm1(vals) if ctx.thorough else pm1(sorted(vals)[:1])
     else:
-        Ws += pm1(fvals)
+        w_more = pm1(fvals)
+        w_core.append(max(fvals) + 1)
+    e_core: list[Any] = [None]
+    e_more: list[Any] = []
     if ext is not None:
-        ev: set[int] = set()
         raws, recvs = ref["all_raw"], ref["all_recv"]
+        truth: set[int] = set()  # sizes of what is really uploaded
+        other: set[int] = set()  # sizes the server compares with / received sizes
         if kind == "producer":
-            # externalised cycles in order; a turn may hold any contiguous run of them
             thr = ext["thr"]
             xl = [lg for lg in lgs[: len(expected_events(kind, prm))] if lg >= thr]
             for i in range(len(xl)):
-                for j in range(i, len(xl)):
-                    if j < len(raws):
-                        ev.add(sum(xl[i : j + 1]))
-                        ev.add(sum(raws[i : j + 1]))
-                        ev.add(sum(recvs[i : j + 1]))
-                        ev.add(sum(raws[i:j]) + xl[j])
+                for j in range(i, min(len(xl), len(raws))):
+                    truth.add(sum(raws[i : j + 1]))
+                    other.add(sum(raws[i:j]) + xl[j])
+                    other.add(sum(recvs[i : j + 1]))
+                    other.add(sum(xl[i : j + 1]))
         else:
             for p, lg in zip(ref["per"], lgs):
-                ev.add(lg)
+                other.add(lg)
                 if p["raw"]:
-                    ev.add(sum(p["raw"]))
-                    ev.add(sum(p["recv"]))
-        Es += pm1(ev)
+                    truth.add(sum(p["raw"]))
+                    other.add(sum(p["recv"]))
+        e_core += pm1(truth)
+        e_more = [x for x in pm1(other) if x not in e_core]
     else:
-        Es += [1]
-    return [(W, E) for W in Ws for E in Es]
+        e_core.append(1)
+    Ws = w_core + [x for x in w_more if x not in w_core]
+    Es = e_core + e_more
+    if kind == "unary" or ctx.thorough:
+        return [(W, E) for W in Ws for E in Es]
+    pairs = [(W, E) for W in Ws for E in e_core]
+    pairs += [(W, E) for W in w_core for E in e_more]
+    return pairs
 
 
 def run_item(ctx: Ctx, item: dict[str, Any], only: Any = None, sample_budget: list[int] | None = None) -> None:
